@@ -3,7 +3,6 @@ Various utility functions for mapping constrained sensors locations with the col
 indices for class GQR.
 """
 
-import operator
 import os
 import sys
 
